@@ -113,6 +113,30 @@ func Check(env *core.Env, rep *core.Report) *core.Result {
 		if g == "flat4" && !thorough {
 			rng := env.Rand("flat4-sample")
 			rng.Shuffle(len(bs), func(i, j int) { bs[i], bs[j] = bs[j], bs[i] })
+			// the sample always contains (up to 1200 of) the behaviours in which some stage has two
+			// failing dependencies or two skipped ones: per-dependency bookkeeping goes wrong there
+			var first, rest []Beh
+			for _, b := range bs {
+				special := false
+				for s := range b.Deps {
+					nf, ns := 0, 0
+					for _, d := range b.Deps[s] {
+						switch b.Cls[d-1] {
+						case "FAIL":
+							nf++
+						case "CFALSE":
+							ns++
+						}
+					}
+					special = special || nf >= 2 || ns >= 2
+				}
+				if special && len(first) < 1200 {
+					first = append(first, b)
+				} else {
+					rest = append(rest, b)
+				}
+			}
+			bs = append(first, rest...)
 			if len(bs) > 3000 {
 				bs = bs[:3000]
 			}
